@@ -187,20 +187,47 @@ def junk_row(kind, V, k=0):
     return row
 
 
-def put_junk(t, where, kinds):
-    """Overwrite the rows (last dimension) of the float tensor `t` selected by the boolean
-    nested list/tensor `where` with garbage of the kind named at the same position in `kinds`
-    (nested list of None / kind name). Returns a new tensor; `t` is left alone."""
+def put_junk(t, where, kinds, allowed=None, ninf=float("-inf")):
+    """Overwrite rows (last dimension) of the float tensor `t` with garbage of the kind named at
+    the same position in `kinds` (nested list of None / kind name): a kind of JUNK_KINDS is
+    written only where the boolean `where` is set (a position the property says is ignored);
+    the kind "ninf_other" only where it is not set: there one entry for which `allowed` (bool,
+    shape of `t`) holds - a class that is not the one that counts - becomes `ninf` (-inf: a
+    masked vocabulary entry; 0 for probabilities). Returns a new tensor; `t` is left alone."""
     import torch
-    t = t.clone()
+    t = t.contiguous().clone()
     V = t.size(-1)
     flat = t.view(-1, V)
     w = torch.as_tensor(where, dtype=torch.bool).reshape(-1)
+    al = None if allowed is None else allowed.reshape(-1, V)
     ks = flat_list(kinds)
     for i in range(flat.size(0)):
-        if bool(w[i]) and ks[i] is not None:
-            flat[i] = torch.tensor(junk_row(ks[i], V, i), dtype=t.dtype)
+        k = ks[i] if i < len(ks) else None
+        if k is None:
+            continue
+        if k == "ninf_other":
+            if not bool(w[i]) and al is not None:
+                cand = [c for c in range(V) if bool(al[i, c])]
+                if cand:
+                    flat[i, cand[i % len(cand)]] = ninf
+        elif bool(w[i]):
+            flat[i] = torch.tensor(junk_row(k, V, i), dtype=t.dtype)
     return t
+
+
+def finite_fill(t):
+    """What the model is given for a tensor that may hold non-finite entries: per row (last
+    dimension) every non-finite entry becomes the smallest finite entry of the row minus one
+    (0 when the row has none). The model is proved not to look at the ignored entries; an entry
+    that lost against the row's maximum still loses."""
+    import torch
+    if t.numel() == 0:
+        return t
+    fin = torch.isfinite(t)
+    big = torch.where(fin, t, torch.full_like(t, float("inf")))
+    low = big.min(-1, keepdim=True).values - 1
+    low = torch.where(torch.isfinite(low), low, torch.zeros_like(low))
+    return torch.where(fin, t, low.expand_as(t))
 
 
 def flat_list(x):
